@@ -155,3 +155,47 @@ def pname(fn, idx):
         return bs[0][0] if bs else "?"
     except (IndexError, KeyError):
         return "?"
+
+
+def value_chain(c, node, depth=0):
+    """Method calls applied to the value of `node`, in order, following the value through simple `let x = <node>` bindings
+    (so `let raw = index.get(..); raw.into_iter().filter(..)` yields the same chain as `index.get(..).iter().filter(..)`)."""
+    out = list(chain_up(c, node))
+    top = out[-1] if out else node
+    if depth > 3:
+        return out
+    # is `top` (through refs) the initialiser of a simple let?
+    cur = top
+    for p in c.parents(top):
+        if p.get("k") in ("addrof", "unary", "cast") and p.get("e") is cur:
+            cur = p
+            continue
+        if p.get("k") == "let" and p.get("init") is cur and p["pat"].get("k") == "p_bind":
+            lid = p["pat"]["id"]
+            # uses of the local anywhere in the fn
+            for use in fb.local_uses(c.fn.body, lid):
+                out += value_chain(c, use, depth + 1)
+        break
+    return out
+
+
+def recv_chain(c, e, depth=0):
+    """Names of the method calls that produced receiver expression `e`, innermost last, and the base expression; simple locals are looked through."""
+    names = []
+    while e is not None and depth < 12:
+        depth += 1
+        while e is not None and e.get("k") in ("addrof", "unary", "cast"):
+            e = e["e"]
+        if e is None:
+            break
+        if e.get("k") == "mcall":
+            names.append(e["name"])
+            e = e["recv"]
+            continue
+        if e.get("k") == "path" and e.get("res") == "local":
+            b = c.binds.get(e["id"])
+            if b and b[0] == "expr" and b[1].get("k") in ("mcall", "path", "addrof", "unary"):
+                e = b[1]
+                continue
+        break
+    return names, e
